@@ -8,6 +8,9 @@ if [ -n "$(git status --short)" ]; then echo "refusing: /repo has uncommitted ch
 if ! git apply --check "$PATCH" 2>/dev/null; then echo "patch does not apply: $PATCH"; exit 2; fi
 git apply "$PATCH"
 trap 'git -C /repo checkout -- . >/dev/null 2>&1' EXIT
+# evidence / replays of these runs go to a scratch tree, never to /verif/evidence
+export VERIF_DIR=/tmp/verif_mut_out
+mkdir -p "$VERIF_DIR" && cp /verif/known_findings.json "$VERIF_DIR/"
 for id in "$@"; do
   out=$(cd /verif && ./check "$id" "$TIER" 2>/dev/null); rc=$?
   nviol=$(echo "$out" | grep -c "^VIOLATION")
